@@ -79,6 +79,10 @@ def _run(case, mode: str, src: str, data: dict):
 def evaluate(case) -> Verdict:
     v = Verdict()
     src = case["src"] if "src" in case else gg.to_source(case["main"])
+    nl = case.get("nl")
+    if nl:
+        # the same template with another line-break convention and some leading blank lines
+        src = nl["sep"] * nl["lead"] + src.replace("\n", nl["sep"])
     data = gd.decode(case["data"])
     probe = envs.make_env(_cfg(case, "lax"), PARTIALS)
     if not _lexes(probe, src):
@@ -174,14 +178,18 @@ def cases(draw):
     data["pname"] = r.choice(["p", "q", "missing"])
     m = gm.Mut(r)
     c = r.random()
+    nl = {"sep": r.choice(NL_SEPS), "lead": r.randint(0, 12)} if r.random() < 0.15 else None
     if c < 0.35:
-        return {"cfg": cfg, "main": gg.Gen(r, _profile(cfg)).template(), "data": data, "mutations": []}
+        return {"cfg": cfg, "main": gg.Gen(r, _profile(cfg)).template(), "data": data, "mutations": [], "nl": nl}
     if c < 0.8:
         base = gg.to_source(gg.Gen(r, _profile(cfg)).template())
         src, ops = m.mutate(base, r.choice([1, 1, 2, 3]))
-        return {"cfg": cfg, "src": src, "data": data, "mutations": ops}
+        return {"cfg": cfg, "src": src, "data": data, "mutations": ops, "nl": nl}
     src = m.soup() if r.random() < 0.8 else m.liquid_soup()
-    return {"cfg": cfg, "src": src, "data": data, "mutations": ["soup"]}
+    return {"cfg": cfg, "src": src, "data": data, "mutations": ["soup"], "nl": nl}
+
+
+NL_SEPS = ["\r\n", "\r\n", "\r", "\u2028", "\x0c\n", "\n\r"]
 
 
 # a malformed expression placed in exactly one tag position of an otherwise valid template
@@ -256,6 +264,10 @@ def _campaign(ctx: core.Ctx, tier: str, shard: int, nshards: int) -> None:
             idx += 1
             if idx % nshards == shard:
                 ctx.run({"cfg": base_cfg, "src": hole.replace("«X»", bad), "data": {"items": [1, 2], "a": "x"}, "mutations": ["hole"]})
+                if idx % 3 == 0:
+                    sep = NL_SEPS[idx % len(NL_SEPS)]
+                    ctx.run({"cfg": base_cfg, "src": hole.replace("«X»", bad), "data": {"items": [1, 2], "a": "x"}, "mutations": ["hole"],
+                             "nl": {"sep": sep, "lead": 3 + idx % 9}})
     total = 4000 if tier == "quick" else 80000
     core.drive(cases(), ctx.run, n=max(1, total // nshards), seed=core.sub_seed(ctx.seed, shard))
 
